@@ -2,6 +2,7 @@
 import facts
 import r01_dualflow
 import r02_sweep
+import r03_homog
 import r04_conv
 import r05_select
 import r16_frame
@@ -117,6 +118,17 @@ def r1_idealgas(ctx, prop):
     return rs
 
 
+def r3(ctx, prop):
+    rs = r03_homog.run(ctx.F())
+    if prop == "C10":
+        for r in rs:
+            r.instances = [i for i in r.instances if i["id"].startswith(("idealgas|", "premise|"))]
+            r.nontrivial = {i for i in r.nontrivial if i.startswith(("idealgas|", "premise|"))}
+            r.findings = [f for f in r.findings if "idealgas|" in f.key or "premise|" in f.key or "IdealGas" in f.key]
+            r.floors = []
+    return rs
+
+
 def r2(ctx, prop):
     return r02_sweep.run(ctx.F())
 
@@ -155,7 +167,8 @@ def r12(ctx, prop):
 PROPERTY_RULES = {
     "C08": [r10_wrapper, r11, r2],
     "C09": [r12, r10_wrapper],
-    "C10": [r10_selector, r8, r1_idealgas],
+    "C02": [r3, r7],
+    "C10": [r10_selector, r8, r1_idealgas, r3],
     "C14": [r10_identifier],
     "C20": [r10_transport],
     "C01": [r1_all, r2, r7, r8, r4],
